@@ -97,11 +97,13 @@ def check (c):
     viol = []
     mon  = {}
     worst = 0.0
+    margins = {}
     ninc = 0
     def judge (name, measured, allowed, msg, key = None):
         nonlocal worst
         mon [name] = mon.get (name, 0) + 1
         worst = max (worst, measured / allowed)
+        margins [name.split (':') [0]] = max (margins.get (name.split (':') [0], 0.0), measured / allowed)
         if not (measured <= allowed) and len (viol) < 8:
             viol.append (dict (monitor = name, key = key or name, msg = msg, measured = measured, allowed = allowed))
     pts = []
@@ -175,19 +177,22 @@ def check (c):
                 continue
             classes.add ('far')
             rr = nf ['far'][j] * 4
-            judge ('far-shell.converges', devs [1], max (devs [0] / 2, 0.003 + slack), 'near / far mismatch %.4f at %.0f lambda, %.4f at %.0f lambda: does not fall with distance' % (devs [0], nf ['far'][j], devs [1], rr), key = 'far-shell')
+            judge ('far-shell.converges', devs [1], max (devs [0] / 2, 0.005 + slack), 'near / far mismatch %.4f at %.0f lambda, %.4f at %.0f lambda: does not fall with distance' % (devs [0], nf ['far'][j], devs [1], rr), key = 'far-shell')
             judge ('far-shell.E', devs [1], 0.01 + slack, 'near field at %.0f lambda differs %.3g from the reported far field of that direction, power and distance' % (rr, devs [1]), key = 'far-shell')
             zw = np.linalg.norm (Ec) / np.linalg.norm (Hc)
             judge ('far-shell.E/H', abs (zw - 376.73) / 376.73, 0.01, '|E| / |H| = %.2f ohm at %.0f lambda' % (zw, rr), key = 'far-shell-impedance')
-            tr = np.sqrt (abs (Ec @ tv) ** 2 + abs (Ec @ pv) ** 2)
-            judge ('far-shell.radial', abs (Ec @ rh) / tr, 0.02, 'radial E component is %.3g of the transverse one at %.0f lambda' % (abs (Ec @ rh) / tr, rr), key = 'far-shell-radial')
-            trh = np.sqrt (abs (Hc @ tv) ** 2 + abs (Hc @ pv) ** 2)
-            judge ('far-shell.radial', abs (Hc @ rh) / trh, 0.02, 'radial H component is %.3g of the transverse one' % (abs (Hc @ rh) / trh), key = 'far-shell-radial')
+            # radial parts relative to the field in the direction of the pattern maximum at this distance:
+            # close to the axis of a linear antenna the transverse field itself vanishes while the staggered
+            # current / charge pulses of the method leave a radial residual of order (k * segment)^2
+            tr = np.sqrt (abs (Ec @ tv) ** 2 + abs (Ec @ pv) ** 2) * 10 ** ((gmax - g [2]) / 20)
+            judge ('far-shell.radial', abs (Ec @ rh) / tr, 0.02, 'radial E component is %.3g of the main-beam field at %.0f lambda' % (abs (Ec @ rh) / tr, rr), key = 'far-shell-radial')
+            trh = np.sqrt (abs (Hc @ tv) ** 2 + abs (Hc @ pv) ** 2) * 10 ** ((gmax - g [2]) / 20)
+            judge ('far-shell.radial', abs (Hc @ rh) / trh, 0.02, 'radial H component is %.3g of the main-beam field' % (abs (Hc @ rh) / trh), key = 'far-shell-radial')
     if not any (k.startswith ('E.') for k in mon):
         return dict (status = 'inconclusive', reason = 'no admissible observation point / quadrature self-check failed')
     sig = gen.signature (spec, m, extra = ['+'.join (sorted (classes)), 'pwr%d' % (pwr is not None)])
     jt = [c for c in gen.junction_clusters (m) if len (c) > 1]
     nontrivial = bool (jt) or (m.media is not None and any (g.is_ground [0] or g.is_ground [1] for g in m.geo))
-    return dict ( status = 'violation' if viol else 'held', sig = sig, nontrivial = nontrivial, margin = worst
+    return dict ( status = 'violation' if viol else 'held', sig = sig, nontrivial = nontrivial, margin = worst, margins = margins
                 , monitors = mon, violations = viol, info = dict (N = len (m.pulses), quad_inconclusive = ninc))
 # end def check
